@@ -429,8 +429,11 @@ func evalInt(v ssa.Value, env map[ssa.Value]int64) (int64, bool) {
 }
 
 func ruleR01c(h *H) {
-	const rule = "R01c"
-	h.Rule(rule, "K11", "required follower acks + the leader form a strict majority of RF (RF=1..9); commit fires when the ack count reaches it; the fencing majority is a strict majority (n=1..9)", 3)
+	h.Rule("R01c", "K11", "required follower acks + the leader form a strict majority of RF (RF=1..9); commit fires when the ack count reaches it; the fencing majority is a strict majority (n=1..9)", 3)
+	ruleR01cInto(h, "R01c")
+}
+
+func ruleR01cInto(h *H, rule string) {
 	qt := h.implType(rule, "server", "QuorumAckTracker")
 	if qt == nil {
 		return
